@@ -165,7 +165,10 @@ theorem quiet_step (pol : Policy) (hok : pol.Ok) (s : St) (l : Label) (hw : l.wf
   | setMaxFrame v =>
     simp only [step, hc, hp, Bool.or_false, Bool.false_eq_true, if_false] at hc' ⊢
     cases hs : s.side
-    · simp only [hs]; exact hq
+    · simp only [hs] at hc' ⊢   -- [c08l9] the client validates too
+      split
+      · rename_i hbad; simp [hbad] at hc'
+      · exact hq
     · simp only [hs] at hc' ⊢
       split
       · rename_i hbad; simp [hbad] at hc'
